@@ -33,7 +33,7 @@ def run_property(prop: str, tier: str, repo: str | None = None, write=True, quie
     results = []
     for rule in spec["rules"]:
         res = rule(ctx)
-        if len(res.instances) < res.min_instances:
+        if len(res.instances) < res.min_instances and not res.findings:     # a finding already explains the missing instances
             raise AnalysisError(
                 f"{res.rule}: only {len(res.instances)} instances found, hand-confirmed minimum is {res.min_instances} "
                 f"(a rule that lost its instances would pass vacuously)")
